@@ -730,18 +730,18 @@ _TOT_RULE = ("generated scene x draw parameters (family flags flipped, numeric k
              "inside / after horizons, 5 ways of passing parameters, optional second frame); non-trivial = >= 3 "
              "non-default parameters")
 FACETS = [
-    Facet("totality-obstacles", check_totality, strategy=s_totality("obstacles"), quick=150, thorough=6000,
+    Facet("totality-obstacles", check_totality, strategy=s_totality("obstacles"), quick=400, thorough=6000,
           rule=_TOT_RULE, timeout_quick=900),
-    Facet("totality-map", check_totality, strategy=s_totality("map"), quick=130, thorough=6000, rule=_TOT_RULE,
+    Facet("totality-map", check_totality, strategy=s_totality("map"), quick=350, thorough=6000, rule=_TOT_RULE,
           timeout_quick=900),
-    Facet("totality-planning", check_totality, strategy=s_totality("planning"), quick=50, thorough=2000,
+    Facet("totality-planning", check_totality, strategy=s_totality("planning"), quick=120, thorough=2000,
           rule=_TOT_RULE, timeout_quick=900),
-    Facet("totality-all", check_totality, strategy=s_totality("all"), quick=70, thorough=4000, rule=_TOT_RULE,
+    Facet("totality-all", check_totality, strategy=s_totality("all"), quick=200, thorough=4000, rule=_TOT_RULE,
           timeout_quick=900),
-    Facet("obstacle-content", check_content, strategy=s_content, quick=150, thorough=6000, timeout_quick=900,
+    Facet("obstacle-content", check_content, strategy=s_content, quick=450, thorough=6000, timeout_quick=900,
           rule="statement's configuration, exact states, <= 5 obstacles of all roles x windows; non-trivial = "
                "time_begin > 0 and >= 1 obstacle has and >= 1 lacks an occupancy there"),
-    Facet("lanelet-selection", check_lanelets, strategy=s_lanelets, quick=120, thorough=3000, timeout_quick=900,
+    Facet("lanelet-selection", check_lanelets, strategy=s_lanelets, quick=300, thorough=3000, timeout_quick=900,
           rule="1-5 lanelets x draw_ids (None / subsets / empty / foreign ids) x lanelet and intersection flags; "
                "non-trivial = proper non-empty subset selected"),
     Facet("propagation", check_propagation, strategy=s_propagation, quick=5000, thorough=100000,
